@@ -4,7 +4,7 @@
 From Verif Require Import Base.Prelude Base.StrUtil Base.Index Base.NdArr Base.PyRange
   Model.MapSpec Model.MapSpecSpec Model.MapRun Model.SymBody.
 From Verif Require Import Model.MapDenote Proofs.MapRunFacts.
-From Verif Require Import Proofs.IndexFacts Proofs.PyRangeFacts Proofs.MapResumeFacts Proofs.MapValuesFacts Proofs.MapResumeDenote Proofs.FixedSpecFacts.
+From Verif Require Import Proofs.IndexFacts Proofs.PyRangeFacts Proofs.MapResumeFacts Proofs.MapValuesFacts Proofs.MapResumeDenote Proofs.FixedSpecFacts Proofs.PartSim Proofs.PartReads Proofs.PiecesCalls.
 From Verif Require Import Model.MapResume Model.FixedSpec.
 
 (* ---------------------------------------------------------------- Python slices / ints (Base/PyRange.v) *)
@@ -189,11 +189,8 @@ Print Assumptions C06_map_run_sel_is_map_run.
    whatever ran before (any parts, in any order, interrupted or not) – if the store holds, where it holds something,
    denoted values (fsub: every present cell of a mapped output is the value the denotation's call at that position
    returns, every present single output is the denoted value) – then the final full run COMPLETES, every output's
-   Result.output is the denoted array, and the store is the full denoted store (ffull).
-   `_partial`: that a VALID part leaves such a store (a selected element reads only present upstream elements) is the
-   one step that remains unproved for whole pipelines; it is proved for one function (C06_pieces_eq_whole_func) and
-   checked on every run by spec_ok. *)
-Theorem C06_pieces_eq_denotation_partial : forall body user p inputs D rs,
+   Result.output is the denoted array, and the store is the full denoted store (ffull). *)
+Theorem C06_full_run_on_substore_denotes : forall body user p inputs D rs,
   body_arity body ->
   request_ok p inputs = true -> denote_run body p inputs user = Ok D -> pipeline_order_ok p = true ->
   (forall g, In g p -> fsub body p inputs D rs g) ->
@@ -202,17 +199,107 @@ Theorem C06_pieces_eq_denotation_partial : forall body user p inputs D rs,
     /\ (forall f o, In f p -> In o (fouts f) -> dict_get (p_out ps) o = dict_get (d_out D) o)
     /\ Forall (dump_den body p inputs D) (p_tr ps).   (* and every value it dumps is the denoted one *)
 Proof. exact full_run_on_substore_denotes. Qed.
-Print Assumptions C06_pieces_eq_denotation_partial.
+Print Assumptions C06_full_run_on_substore_denotes.
 
 Example ex_denote_hyps :
   request_ok [ex_f; ex2_g] ex_inputs = true /\ is_ok (denote_run sym_body [ex_f; ex2_g] ex_inputs []) = true
   /\ pipeline_order_ok [ex_f; ex2_g] = true /\ body_arity sym_body.
 Proof. split; [vm_compute; reflexivity|]. split; [vm_compute; reflexivity|]. split; [vm_compute; reflexivity | exact sym_body_arity]. Qed.
 
-(* What is still NOT proved for whole pipelines (checked on every run by spec_ok of Corr/Run_C06.v):
-   that after a VALID part (request_status = Valid) the store is a sub-store of the denoted store (fsub), i.e. that a
-   selected element reads only upstream elements that are present – this is where "no reduction over a fixed axis"
-   enters.  Completion and Result.output of the final run are now proved (C06_pieces_eq_denotation_partial). *)
+(* A VALID PART LEAVES A SUB-STORE (whole pipelines).  A run with a fixed_indices request that
+   _validate_fixed_indices accepts – hence no fixed axis is reduced by any consumer – whose indices are also in range
+   on the axes that only internal shapes carry (fixed_in_range; otherwise the run raises IndexError), on a pipeline
+   whose MapSpecs spell every array with the same axis names (validate_consistent_axes), started on ANY sub-store of
+   the denoted store: it COMPLETES, the store is again a sub-store of the denoted store, and every value it dumps is
+   the denoted one.  The heart of the proof: a selected element reads, in the partially filled upstream arrays, only
+   cells that the same request selects upstream (Proofs/PartReads.v: reads_hold, whole_reads_hold). *)
+Theorem C06_part_leaves_substore : forall body user p inputs D fx rs,
+  body_arity body ->
+  request_ok p inputs = true -> denote_run body p inputs user = Ok D -> pipeline_order_ok p = true ->
+  consistent_axes (arrayspecs p) ->
+  validate_fixed (Some fx) inputs p = Ok tt -> fixed_in_range p (d_shapes D) fx = true ->
+  (forall g, In g p -> fsub body p inputs D rs g) ->
+  exists ps, map_run_sel body p inputs user (Some fx) rs = ROk ps
+    /\ (forall g, In g p -> fsub body p inputs D (p_store ps) g)
+    /\ Forall (dump_den body p inputs D) (p_tr ps)
+    /\ (forall g o, In g p -> is_mapped g = false -> In o (fouts g) ->   (* outputs without mapped inputs are all stored *)
+          dict_get (st_val (p_store ps)) o = Some (Ok (dval D o))).
+Proof. exact part_from_substore. Qed.
+Print Assumptions C06_part_leaves_substore.
+
+(* PIECES_EQ_WHOLE, unconditional in the parts: ANY sequence of accepted requests (any order, overlapping or not,
+   covering the index space or not), each run on the store the previous one left (parts_run), started on any
+   sub-store of the denoted store (e.g. the empty one, fsub_empty): every part completes; the final full run
+   completes; its Result.output is the denoted array for every output; the final store is the full denoted store;
+   every value dumped on the way is the denoted one.  (That no element is computed twice is
+   C06_part_computes_exactly: each run calls exactly the selected elements that are missing.) *)
+Theorem C06_pieces_eq_whole : forall body user p inputs D fxs rs,
+  body_arity body ->
+  request_ok p inputs = true -> denote_run body p inputs user = Ok D -> pipeline_order_ok p = true ->
+  consistent_axes (arrayspecs p) ->
+  (forall fx, In fx fxs -> validate_fixed (Some fx) inputs p = Ok tt /\ fixed_in_range p (d_shapes D) fx = true) ->
+  (forall g, In g p -> fsub body p inputs D rs g) ->
+  exists rsN trs psF,
+    parts_run body p inputs user fxs rs rsN trs
+    /\ (forall g, In g p -> fsub body p inputs D rsN g)
+    /\ Forall (Forall (dump_den body p inputs D)) trs
+    /\ map_run_sel body p inputs user None rsN = ROk psF
+    /\ (forall f, In f p -> ffull body p inputs D (p_store psF) f)
+    /\ (forall f o, In f p -> In o (fouts f) -> dict_get (p_out psF) o = dict_get (d_out D) o)
+    /\ Forall (dump_den body p inputs D) (p_tr psF).
+Proof. exact pieces_eq_whole. Qed.
+Print Assumptions C06_pieces_eq_whole.
+
+(* the hypotheses are satisfiable: f: x[i] -> y[i] followed by h: y[i] -> z[i], requests i=0 and i=1: *)
+Definition ex3_h : mfunc :=
+  {| fname := s "h"; fouts := [s "z"]; fparams := [s "y"]; fbound := []; fdefaults := [];
+     fspec := Some {| ins := [{| aname := s "y"; axes := [Some (s "i")] |}]; outs := [{| aname := s "z"; axes := [Some (s "i")] |}] |};
+     fint := []; fret := [] |}.
+(* ... and the CALL LOGS ARE DUPLICATE-FREE: over all the parts and the final full run no (function, element) is
+   called twice (a run calls only what misses an output, what it computes is present afterwards, and what is present
+   stays present).  Extra hypotheses: output names and function names are unique over the generations (decidable),
+   stored arrays have the size of their index space (sized; trivially true for the empty store). *)
+Theorem C06_pieces_calls_duplicate_free : forall body user p inputs D fxs rs,
+  body_arity body ->
+  request_ok p inputs = true -> denote_run body p inputs user = Ok D -> pipeline_order_ok p = true ->
+  consistent_axes (arrayspecs p) ->
+  NoDup (flat_map fouts (concat (generations p))) -> NoDup (map fname (concat (generations p))) ->
+  (forall fx, In fx fxs -> validate_fixed (Some fx) inputs p = Ok tt /\ fixed_in_range p (d_shapes D) fx = true) ->
+  sized {| x_p := p; x_inputs := inputs; x_shapes := d_shapes D |} rs ->
+  (forall g, In g p -> fsub body p inputs D rs g) ->
+  exists rsN trs psF,
+    parts_run body p inputs user fxs rs rsN trs
+    /\ map_run_sel body p inputs user None rsN = ROk psF
+    /\ NoDup (concat (map calls_of (trs ++ [p_tr psF]))).
+Proof. exact pieces_calls_duplicate_free. Qed.
+Print Assumptions C06_pieces_calls_duplicate_free.
+
+Example ex_calls_hyps :
+  NoDup (flat_map fouts (concat (generations [ex_f; ex3_h]))) /\ NoDup (map fname (concat (generations [ex_f; ex3_h])))
+  /\ forall c, sized c empty_store.
+Proof.
+  split; [vm_compute; repeat constructor; cbn; intuition discriminate|].
+  split; [vm_compute; repeat constructor; cbn; intuition discriminate|].
+  intros c f sm o st _ _ _ _ H. discriminate H.
+Qed.
+
+Theorem C06_empty_store_is_substore : forall body p inputs D g, fsub body p inputs D empty_store g.
+Proof. exact fsub_empty. Qed.
+Print Assumptions C06_empty_store_is_substore.
+
+Example ex_part_hyps : exists D,
+  denote_run sym_body [ex_f; ex3_h] ex_inputs [] = Ok D
+  /\ request_ok [ex_f; ex3_h] ex_inputs = true /\ pipeline_order_ok [ex_f; ex3_h] = true
+  /\ consistent_axes (arrayspecs [ex_f; ex3_h])
+  /\ forall fx, In fx [[(s "i", FInt 0%Z)]; [(s "i", FSlice (Some 1%Z) None None)]] ->
+       validate_fixed (Some fx) ex_inputs [ex_f; ex3_h] = Ok tt /\ fixed_in_range [ex_f; ex3_h] (d_shapes D) fx = true.
+Proof.
+  destruct (denote_run sym_body [ex_f; ex3_h] ex_inputs []) as [D|] eqn:E; [|vm_compute in E; discriminate].
+  exists D. split; [reflexivity|]. split; [vm_compute; reflexivity|]. split; [vm_compute; reflexivity|]. split.
+  - intros sp1 sp2 k x y H1 H2 _ K1 K2. cbn in H1, H2.
+    destruct H1 as [<-|[<-|[<-|[<-|[]]]]], H2 as [<-|[<-|[<-|[<-|[]]]]]; destruct k as [|[|k]]; cbn in K1, K2; congruence.
+  - vm_compute in E. injection E as <-. intros fx [<-|[<-|[]]]; split; vm_compute; reflexivity.
+Qed.
 
 (* ---------------------------------------------------------------- final_run_computes_nothing *)
 Theorem C06_final_run_computes_nothing_func : forall body f ms kw sh mask stores tr st existing,
@@ -292,6 +379,11 @@ Theorem C06_bad_request_rejected : forall p, consistent_axes (arrayspecs p) ->
   exists e, validate_fixed (Some d) inputs p = Err e.
 Proof. exact rejected_status_rejected. Qed.
 Print Assumptions C06_bad_request_rejected.
+
+(* the hypothesis in decidable form (evaluated on every generated request by the CLink cases of Corr/Run_C06.v) *)
+Theorem C06_consistent_axes_decidable : forall arrs, consistent_axesb arrs = true -> consistent_axes arrs.
+Proof. exact consistent_axesb_ok. Qed.
+Print Assumptions C06_consistent_axes_decidable.
 
 Example ex_consistent : consistent_axes (arrayspecs [ex_f; ex2_g]).
 Proof.
